@@ -1524,7 +1524,7 @@ class Interp:
             if isinstance(n.op, ast.USub):
                 return -v if not isinstance(v, Struct) else self.struct_map(lambda x: -x, v)
             if isinstance(n.op, ast.Not):
-                if isinstance(v, (bool, type(None), int, str, tuple, list, dict)):
+                if isinstance(v, (bool, type(None), int, str, tuple, list, dict, NumStr, set, frozenset, bytes)):
                     return not v
                 return 1 - v
             if isinstance(n.op, ast.Invert):
@@ -1883,6 +1883,12 @@ class Interp:
                     return NumStr([y for x in items for y in x.vals])
                 return _sep.join(items)
             return ('pybound', join)
+        if isinstance(v, tuple) and len(v) == 2 and v[0] == 'builtin' and v[1] in ('dict', 'str', 'int', 'float', 'bytes', 'list', 'tuple', 'set'):
+            # class-level helpers of the builtin types on host-side (static) data: dict.fromkeys, str.join, int.from_bytes, ...
+            import builtins as _b
+            t_ = getattr(_b, v[1])
+            if hasattr(t_, a) and callable(getattr(t_, a)):
+                return ('pybound', getattr(t_, a))
         if isinstance(v, (tuple, list)) and a in ('index', 'append', 'count', 'extend'):
             return ('bound', 'seq_' + a, v)
         if isinstance(v, (list, str, bytes, dict, set, range)) and not (isinstance(v, tuple) and v and isinstance(v[0], str) and len(v) == 3) and hasattr(v, a) and callable(getattr(v, a)):
